@@ -15,12 +15,17 @@
     that was not yet announced when the call started (its refresh). A key that only an OLDER download
     contained is retired and must not verify anything any more.
   * REJECT (`noKey`/`badSig`) ⇒ either the token is rejected by the key set of a successful download
-    that was NOT yet announced when the call started (the one refresh of that call is fresh), or a
-    successfully downloaded key set contains the very key the token names by a non-empty `kid` (or, with
-    `SkipRemoteCheck`, the kid-less key for a kid-less token) and that key does not verify it — a `kid`
-    names one key, so no refresh can help.
+    that was still under way — NOT yet announced — at the instant the call, unanswered by the cache, turned to
+    the endpoint (`ask`: the one refresh of that call, triggered or shared by it, is fresh; a call that never
+    asked has had no refresh), or a successfully downloaded key set contains the very key the token names by a
+    non-empty `kid` (or, with `SkipRemoteCheck`, the kid-less key for a kid-less token) and that key does not
+    verify it — a `kid` names one key, so no refresh can help.
+    The linearisation point is `ask`, not the call's start: between its start (cache lookup) and `ask` a call can be
+    overtaken by the publication of an OLDER download, whose answer may predate a rotation; a rejection that rests
+    on such a download alone ("the cache was synced since I looked") is a rejection WITHOUT a refresh, although the
+    endpoint has been serving the token's key since before the call began.
   * own-context error ⇒ that call's context was cancelled.  fetch error ⇒ a download that was not
-    yet announced at the call's start ended with exactly that failure; a download that was aborted
+    yet announced when the call asked ended with exactly that failure; a download that was aborted
     by a cancellation fails a call only if that call's own context is cancelled (cancel isolation).
   * a failed download never discards cached keys: if, at every instant of the call, the key set of the
     most recently retired successful download verifies the token, the call must not end in an error.
@@ -59,6 +64,7 @@ structure MCaller where
   finished : Bool := false
   cancelled : Bool := false
   stale : Fid → Bool := fun _ => false   -- downloads already announced when the call started
+  asked : Fid → Bool := fun _ => true    -- downloads already announced when the call turned to the endpoint (`ask`); before that instant: all
   hit : Bool := false                    -- every key set the cache had to hold since the call started verifies the token
   mayHit : Bool := false                 -- some key set the cache had to hold at some instant since the call started verifies it
   owned : Nat := 0                       -- downloads begun on behalf of this call
@@ -102,16 +108,16 @@ def acceptJustified (m : MState) (mc : MCaller) : Bool :=
     | some ks => !mc.stale f && refAccepts ks mc.tok
     | none => false
 
-/-- REJECT: a fresh successful download's key set rejects the token, or the named key is known and rejects it -/
+/-- REJECT: the key set of a successful download that was unannounced when the call asked rejects the token, or the named key is known and rejects it -/
 def rejectJustified (m : MState) (mc : MCaller) : Bool :=
   (List.range m.nf).any fun f =>
     match okKeys m f with
-    | some ks => (!mc.stale f && !refAccepts ks mc.tok) || namedKeyRejects m.skip ks mc.tok
+    | some ks => (!mc.asked f && !refAccepts ks mc.tok) || namedKeyRejects m.skip ks mc.tok
     | none => false
 
-/-- FETCH ERROR `k`: a fresh download ended with failure `k` -/
+/-- FETCH ERROR `k`: a download that was unannounced when the call asked ended with failure `k` -/
 def fetchErrJustified (m : MState) (mc : MCaller) (k : EndKind) : Bool :=
-  (List.range m.nf).any fun f => !mc.stale f && failedWith m f k
+  (List.range m.nf).any fun f => !mc.asked f && failedWith m f k
 
 /-- the clause violated by call `c` returning `o` (none = fine) -/
 def judge (m : MState) (c : Cid) (o : Outcome) : Option String :=
@@ -163,6 +169,7 @@ def mstep (m : MState) : Obs → MState
       { m with cacheExpect := ks, callers := fun c => { m.callers c with hit := (m.callers c).hit && refAccepts ks (m.callers c).tok, mayHit := (m.callers c).mayHit || refAccepts ks (m.callers c).tok } }
     | none => m
   | .point _ _ => m
+  | .ask c => { m with callers := upd m.callers c { m.callers c with asked := m.announced } }
 
 def mrun (m : MState) (obs : List Obs) : MState := obs.foldl mstep m
 
